@@ -50,6 +50,21 @@ class C11(Check):
         aliasing = [('and', ('alwt', 0, 9, ('var', 0)), ('pred', 'geq', ('a2', 'add', ('var', 0), ('var', 1)), ('const', 0))),
                     ('or', ('evt', 1, 9, ('var', 0)), ('evt', 0, 7, ('var', 0))), ('alwt', 0, 5, ('var', 0)), ('next', ('var', 0)), ('rise', ('var', 0)),
                     ('untilt', 0, 9, ('var', 0), ('var', 1)), ('oncet', 0, 9, ('var', 0))]
+        # twins, deterministically: the same text under another default unit / another sampling period, first object evaluated first
+        for kind in ('discrete-offline', 'discrete-online'):
+            for f in (('oncet', 1, 2, P), ('histt', 0, 2, P), ('evt', 1, 3, P) if kind.endswith('offline') else ('oncet', 2, 3, P)):
+                n = 6
+                cols = fml.gen_trace(rng, 1, n)
+                base_o = {'monitor': kind, 'vars': fml.VARS[:1], '_f': fml.to_sx(f)}
+                ms = 'out = ' + fml.to_text(f, lambda b, e: '[%d:%d]' % (b * 1000, e * 1000))
+                o1 = dict(base_o, spec=ms, unit='ms', period=[1, 's', 0.1], calls=calls_for(kind, f, cols, list(range(n)), n))
+                o2 = dict(o1, unit='s', calls=calls_for(kind, f, fml.gen_trace(rng, 1, n), list(range(n)), n))
+                ps = 'out = ' + fml.to_text(f, lambda b, e: '[%d:%d]' % (b * 2, e * 2))
+                o3 = dict(base_o, spec=ps, unit='s', period=[2, 's', 0.1], calls=calls_for(kind, f, cols, [2 * k for k in range(n)], n))
+                o4 = dict(o3, period=[1, 's', 0.1], calls=calls_for(kind, f, fml.gen_trace(rng, 1, n), list(range(n)), n))
+                for pair in ([o1, o2], [o2, o1], [o3, o4], [o4, o3]):
+                    order = [[0, ci] for ci in range(len(pair[0]['calls']))] + [[1, ci] for ci in range(len(pair[1]['calls']))]
+                    cases.append({'objects': pair, 'schedule': order})
         for i in range(nrand):
             objs = []
             for j in range(rng.choice([1, 2, 2, 3])):
